@@ -15,7 +15,7 @@ ANCHORS = ["src/pylife/materiallaws/notch_approximation_law.py",
 SHARDS = {"quick": 4, "thorough": 16}
 WATCHDOG = {"quick": 900, "thorough": 3000}
 REQUIRED_CLASSES = {t: ["law:neuber", "law:seegerbeste", "branch:primary", "branch:secondary", "kp=1", "kp_near_1",
-                        "load>tensile_strength", "load_elastic", "tol=0.0001", "tol=1e-10", "container:float",
+                        "load>tensile_strength", "load_elastic", "load_zero_in_array", "configured_through_setter", "tol=0.0001", "tol=1e-10", "container:float",
                         "container:np.float64", "container:array1", "container:arrayN", "container:series_range",
                         "container:series_multiindex", "container:series1", "material:steel", "material:cast", "material:aluminium"]
                     for t in ("quick", "thorough")}
@@ -84,6 +84,8 @@ def generate(ctx):
         tol = float(rng.choice([1e-4, 1e-6, 1e-8, 1e-10]))
         fr = np.concatenate([[0.01, 0.1], rng.uniform(0.2, 1.0, 4), rng.uniform(1.0, 4.0, 6)])
         loads = np.unique(np.round(fr * m["Rm"], 3)).tolist()      # sorted, no duplicates after rounding
+        if i % 7 in (3, 4, 5) and i % 3 == 0:
+            loads = [0.0] + loads                                  # an unloaded entry inside an array / Series (vector containers)
         yield {"law": kind, "mat": m, "kp": kp, "tol": tol, "loads": loads,
                "container": ["float", "np.float64", "array1", "arrayN", "series_range", "series_multiindex", "series1"][i % 7]}
 
@@ -152,6 +154,8 @@ def run_case(case, ctx):
         ctx.tag("load>tensile_strength")
     if loads.min() < 0.05 * m["Rm"]:
         ctx.tag("load_elastic")
+    if loads.min() == 0.0:
+        ctx.tag("load_zero_in_array")
     ctx.nontrivial(loads.max() > 0.5 * m["Rm"])
     allow = lambda s: 2.0 * (tol + tol * abs(s))
     # structure: Seeger-Beste with a bracket [L/K_p, L] narrower than the secant's second starting point offset
@@ -239,6 +243,33 @@ def run_case(case, ctx):
                 wtag = ["c06_inverse_returned_unconverged_with_warning"] if warned else []
                 ctx.check("load(stress(L))==L", gotb.shape == L.shape and bool(np.all(np.abs(gotb - L) <= lim)), observed=gotb, expected=L,
                           tags=narrow + wtag + tag, detail={"branch": branch, "container": case["container"], "convergence_warnings": warned})
+    if kp * 1.5 + 0.25 >= 1.01:
+        _setter_case(case, ctx, law, loads, tol)
+
+
+def _setter_case(case, ctx, law, loads, tol):
+    """the law is re-configured through its public setters and asked the same loads again: the answers must be those of
+    the new parameters (anything remembered from the first configuration shows against the bracketing solve)"""
+    m, kind = case["mat"], case["law"]
+    kp2 = float(case["kp"] * 1.5 + 0.25)
+    K2 = float(m["K"] * 1.2)
+    ctx.tag("configured_through_setter")
+    nz = loads[loads > 0]
+    for what, (kp_, K_) in (("K_p", (kp2, m["K"])), ("K", (kp2, K2))):
+        if what == "K_p":
+            law.K_p = kp2
+        else:
+            law.K = K2
+        for branch, fwd in (("primary", law.stress), ("secondary", law.stress_secondary_branch)):
+            L = nz if branch == "primary" else 2.0 * nz
+            vec, err = _call(ctx, fwd, L.copy(), tol, f"{kind}.{branch}.stress(ndarray) after {what} setter", ["setter"])
+            if vec is None:
+                continue
+            vec = np.asarray(vec, dtype=float)
+            truth = np.array([N.solve(kind, branch, float(x), m["E"], K_, m["n"], kp_) for x in L])
+            bad = [(float(l), float(s), float(t)) for l, s, t in zip(L, vec, truth) if not abs(s - t) <= 2.0 * (tol + tol * abs(t))]
+            ctx.check("root_within_tolerance", not bad, observed=bad[:4], expected="the root for the parameters set last",
+                      detail={"branch": branch, "after_setter": what, "K_p": kp_, "K": K_})
 
 
 def _dL_dsigma(kind, branch, sig, L, m, kp):
